@@ -21,7 +21,9 @@
    the producer, which resumes in order; the mailbox smoothing pause; TCP. *)
 From Cell2V Require Import Common.Tac Common.ListX Common.AList.
 
-Inductive kind := KPush | KResp | KErr.
+Inductive kind := KPush | KResp | KErr
+| KEmpty.   (* a push whose message has only default-valued fields: zero bytes on the wire under the
+               protobuf client serializer ("{}" under JSON); it identifies nothing at the client *)
 
 (* it_size: the payload padding in bytes - pure data for the queue network (the order theorems
    hold for all sizes: Props.C03_order_size_independent), compared at the client *)
@@ -40,7 +42,7 @@ Record st := mkSt { pend : qmap; mbox : list item; chs : qmap; got : qmap }.
 
 Definition front : Z := 0.
 
-Definition is_push (k : kind) : bool := match k with KPush => true | _ => false end.
+Definition is_push (k : kind) : bool := match k with KPush | KEmpty => true | _ => false end.
 
 (* written by the issuer straight into the connection's send queue? *)
 Definition direct (fixed : bool) (x : item) : bool :=
@@ -79,10 +81,11 @@ Inductive op :=
 | OConn (c slow : Z)                       (* connect; slow: the client pauses that many us per message *)
 | OStall (c ms : Z)                        (* the client stops reading for ms milliseconds from now *)
 | OKey (c v : Z)                           (* set the routing key of c (acknowledged before the next op) *)
+| OProto                                   (* the case runs with the protobuf client serializer (anywhere in the list) *)
 | OSend (c ty n1 n2 tag : Z) (pads : list Z) (rpad mode : Z) (targets : list Z).
     (* pipelined request: n1 pushes, the response, n2 pushes.  Push number q is padded with
        [pad_at pads q] bytes (pads is repeated cyclically: sizes vary WITHIN one handler's issue
-       sequence), the response with rpad bytes.  mode 0: each push goes to the
+       sequence; a negative entry = a message without content), the response with rpad bytes.  mode 0: each push goes to the
        requester (PushMessageById); mode 1: to the connected ones among [targets]
        (PushMessageByIds); mode 2: broadcast through a channel holding them (Channel.PushMessage) *)
 
@@ -90,6 +93,7 @@ Inductive ev :=
 | EPush (inst tag seq ctr cnt size : Z)    (* cnt consecutive pushes seq.., issue counters ctr.., all padded with size bytes *)
 | EResp (inst tag ctr size : Z)
 | EErr                                     (* error response (no payload) *)
+| EEmpty                                   (* a push without content *)
 | EOther.
 
 Fixpoint zseq_from (from : Z) (fuel : nat) : list Z :=
@@ -105,7 +109,8 @@ Definition pad_at (pads : list Z) (q : Z) : Z :=
 
 (* count pushes numbered from.., each to every target (one item per target, in listing order) *)
 Definition pushes (i tag : Z) (pads targets : list Z) (from count : Z) : list item :=
-  flat_map (fun q => map (fun t => mkItem i t KPush tag q (pad_at pads q)) targets) (zseq from count).
+  flat_map (fun q => map (fun t => mkItem i t (if Z.ltb (pad_at pads q) 0 then KEmpty else KPush) tag q (pad_at pads q))
+                         targets) (zseq from count).
 
 Definition script (i c tag n1 n2 : Z) (pads : list Z) (rpad : Z) (targets : list Z) : list item :=
   pushes i tag pads targets 0 n1 ++ [mkItem i c KResp tag 0 rpad] ++ pushes i tag pads targets n1 n2.
@@ -123,7 +128,7 @@ Definition conn_step (cs : alist Z) (o : op) : alist Z :=
   match o with
   | OConn c _ => match aget c cs with None => aset c 0 cs | Some _ => cs end
   | OKey c v => match aget c cs with Some _ => aset c v cs | None => cs end
-  | OStall _ _ | OSend _ _ _ _ _ _ _ _ _ => cs
+  | OStall _ _ | OProto | OSend _ _ _ _ _ _ _ _ _ => cs
   end.
 
 Definition connected (cs : alist Z) (c : Z) : bool :=
@@ -163,6 +168,7 @@ Definition expand (c : Z) (e : ev) : list item :=
   | EPush i tag s _ cnt sz => map (fun q => mkItem i c KPush tag q sz) (zseq s cnt)
   | EResp i tag _ sz => [mkItem i c KResp tag 0 sz]
   | EErr => [mkItem front c KErr 0 0 0]
+  | EEmpty => [mkItem (-2) c KEmpty 0 0 0]
   | EOther => [mkItem (-1) c KErr 0 0 0]
   end.
 
